@@ -235,6 +235,27 @@ void conf_fill_dir(const plan_t *p)
     probe_hit("big_directory");
 }
 
+/* environment of the conf engines: HOME, V1, EMPTY, optionally very long values and a TMPDIR of a chosen shape */
+void conf_env_setup(const plan_t *p)
+{
+    long v1 = plan_get(p, "env.v1len", 0), hl = plan_get(p, "env.homelen", 0), td = plan_get(p, "tmpdir", 0);
+    setenv("HOME", "/home/u", 1); setenv("V1", "val-one", 1); setenv("EMPTY", "", 1); setenv("LONG_name_9", "L", 1);
+    if (v1 > 0 && v1 <= 70000) { char *b = malloc((size_t)v1 + 1); memset(b, 'w', (size_t)v1); b[v1] = 0; setenv("V1", b, 1); free(b); probe_hit("long_env_value"); }
+    if (hl > 0 && hl <= 70000) { char *b = malloc((size_t)hl + 3); b[0] = '/'; memset(b + 1, 'h', (size_t)hl); b[hl + 1] = 0; setenv("HOME", b, 1); free(b); probe_hit("long_home"); }
+    if (td == 1) setenv("TMPDIR", "/tmp", 1);
+    else if (td >= 2) {
+        /* a TMPDIR so long that "<dir>/<template>XXXXXX" just fits, or does not fit, the 256-byte name buffer; td==3: it does not exist */
+        long n = plan_get(p, "tmpdir.len", 240);
+        char b[400];
+        if (n < 2) n = 2;
+        if (n > 380) n = 380;
+        b[0] = '/'; memset(b + 1, 't', (size_t)n - 1); b[n] = 0;
+        if (td == 2) simfs_add_dir(b);
+        setenv("TMPDIR", b, 1);
+        probe_hit("long_tmpdir");
+    }
+}
+
 uint64_t conf_trace_digest(int from)
 {
     uint64_t h = 1469598103934665603ULL;
